@@ -1227,3 +1227,20 @@ Qed.
 Lemma cell_levels_spec (iscell : list bool) i :
   In i (cell_levels iscell) <-> i < length iscell /\ nth i iscell false = true.
 Proof. unfold cell_levels. rewrite filter_In, in_seq. intuition lia. Qed.
+
+(* ------------------------------------------------------------------ to_meshtri: the machine keys are the exact keys *)
+(* hypothesis under which v0 * nv + v1 does not wrap (hence is injective on vertex pairs below nv): nv * nv < 2^(bits-1) *)
+Theorem facet_key_machine_exact (bits nv : nat) (f : list nat) :
+  0 < bits -> pair_ok nv f -> (Z.of_nat (nv * nv) < 2 ^ Z.of_nat (bits - 1))%Z ->
+  facet_key_machine bits nv f = Z.of_nat (facet_key nv f).
+Proof.
+  intros Hb [_ [H0 H1]] Hn. unfold facet_key_machine, wrap_signed.
+  assert (Hk : facet_key nv f < nv * nv) by (unfold facet_key; nia).
+  assert (Hp : (2 ^ Z.of_nat bits = 2 * 2 ^ Z.of_nat (bits - 1))%Z).
+  { replace (Z.of_nat bits) with (Z.succ (Z.of_nat (bits - 1))) by lia. apply Z.pow_succ_r. lia. }
+  rewrite Z.mod_small by lia. lia.
+Qed.
+
+Corollary facet_key_machine_exact_64 (nv : nat) (f : list nat) :
+  pair_ok nv f -> (Z.of_nat (nv * nv) < 2 ^ 63)%Z -> facet_key_machine 64 nv f = Z.of_nat (facet_key nv f).
+Proof. intros Hf Hn. apply facet_key_machine_exact; [lia | exact Hf | exact Hn]. Qed.
